@@ -19,7 +19,7 @@ ASSUMPTIONS = ['comparison is bit-exact (torch.equal, NaN-aware): no tolerance, 
 REQUIRED_REACH = ['_tt_base:TT.__truediv__', '_dmrg:dmrg_matvec_python', '_dmrg:dmrg_hadamard_python', '_amen:amen_mv', '_amen:amen_mm', 'solvers:amen_solve', '_division:amen_divide',
                   'interpolate:function_interpolate', 'interpolate:dmrg_cross', '_tt_base:TT.round', '_extras:reshape', '_extras:permute', 'manifold:riemannian_projection',
                   'manifold:riemannian_gradient', '_extras:elementwise_divide']
-REQUIRED_COUNTS = {'imm_operand_checks': 2000, 'imm_stability_checks': 5000, 'op:fast_matvec(initial)': 3, 'op:dmrg_hadamard(z0)': 3, 'op:amen_mv(x0)': 3, 'op:amen_mm(X0)': 3,
+REQUIRED_COUNTS = {'same_call_again': 100, 'imm_result_identity_checks': 500, 'imm_operand_checks': 2000, 'imm_stability_checks': 5000, 'op:fast_matvec(initial)': 3, 'op:dmrg_hadamard(z0)': 3, 'op:amen_mv(x0)': 3, 'op:amen_mm(X0)': 3,
                    'op:amen_solve(x0)': 3, 'op:elementwise_divide(start)': 1, 'op:function_interpolate(start)': 1, 'op:dmrg_cross(start)': 1, 'op:TT.scalar(x/s)': 3}
 MIN_NONTRIVIAL = {'quick': 200, 'thorough': 2000}
 CASE_TIMEOUT = {'quick': 240, 'thorough': 600}
@@ -47,12 +47,20 @@ def run_case(case, ctx):
             w.admit(w.fresh(w.small_shape()))
         for _ in range(case['steps']):
             w.step()
+            if w.rng.random() < 0.1:
+                w.again(then_edit=w.rng.random() < 0.5)       # the same call once more: an independent result is due
     else:
         w = walk.Walker(ctx, case['seed'], dt, views=True)
         w.view_rot = case['view0']
         for _ in range(case['reps']):
             w.pool = []
             r = w.step(case['op'])
+            lb = w.last
             # second use of the same operands' neighbourhood: feed the result into a cheap follow-up so that aliasing shows
             if r is not None and not isinstance(r, Raised):
                 w.step('norm')
+                # the same call once more on the unchanged operands, the second result then edited in place: the first result (still alive) must keep its value
+                w.last = lb
+                keep_first = r
+                w.again(then_edit=True)
+                del keep_first
